@@ -160,9 +160,12 @@ Plan gen_plan(const std::string &prop, uint64_t seed, int64_t run) {
         add_steps(p, stage, r, (int)r.range(3, 20));
         p.steps.push_back(make_step("dupcheck", r));
         if (r.chance(1, 2)) p.steps.push_back(make_step("dupcheck", r));
-        add_steps(p, after, r, (int)r.range(5, 30));
+        // refused duplicates (over-deep, cyclic) in the middle of the history: later duplicates must be unaffected
         if (r.chance(1, 10)) p.steps.push_back(make_step("dup_deep", r));
-        if (r.chance(1, 6)) p.steps.push_back(make_step("dup_cyclic", r));
+        if (r.chance(1, 5)) p.steps.push_back(make_step("dup_cyclic", r));
+        add_steps(p, after, r, (int)r.range(5, 30));
+        if (r.chance(1, 12)) p.steps.push_back(make_step("dup_deep", r));
+        if (r.chance(1, 8)) { p.steps.push_back(make_step("dup_cyclic", r)); p.steps.push_back(make_step("dupcheck", r)); }
     } else if (prop == "C16") {
         common_knobs(p, r, 3);
         int rounds = (int)r.range(1, 3);
@@ -185,29 +188,51 @@ Plan gen_plan(const std::string &prop, uint64_t seed, int64_t run) {
         add_steps(p, cat({EDIT, QUERY, {{"print", 2}, {"addh", 6}, {"add_obj", 4}}}), r, (int)r.range(3, 15), true);
         if (r.chance(1, 2)) p.steps.push_back(make_step("patch_gen", r));
     } else if (prop == "C18") {
-        int prof = (int)r.below(3);
+        int prof = (int)r.below(4);
         common_knobs(p, r, prof == 0 ? 3 : (prof == 1 ? 4 : 6));
-        g_casekeys = prof == 2;
+        g_casekeys = prof >= 2;
         auto mixm = std::vector<W>{{"merge_apply", 3}, {"merge_gen", 3}, {"parse", 3}, {"dup", 1}, {"addh", 2}, {"delete_key", 1}, {"set_number", 1}};
         add_steps(p, {{"parse", 1}}, r, 2);
         if (r.chance(1, 2)) { Step d = make_step("dup", r); d.a[2] = 1; p.steps.push_back(d); add_steps(p, cat({EDIT, {{"addh", 6}, {"delete_key", 4}}}), r, (int)r.range(1, 5), true); }
         add_steps(p, mixm, r, (int)r.range(2, 8), true);
         add_steps(p, cat({EDIT, QUERY, {{"print", 2}, {"addh", 6}, {"merge_gen", 3}, {"merge_apply", 2}}}), r, (int)r.range(3, 12), true);
     } else if (prop == "C19") {
-        common_knobs(p, r, 0);
-        p.steps.push_back(make_step("new_object", r));
-        int members = r.chance(1, 8) ? (int)r.range(10, 40) : (int)r.range(0, 9);
-        for (int i = 0; i < members; i++) {
-            Step s = make_step(r.chance(1, 4) ? "add_obj" : "addh", r);
-            if (s.op == "add_obj") { p.steps.push_back(make_step(pickw(CREATE, r), r)); }
-            s.a[0] = 0;
-            p.steps.push_back(s);
-        }
         auto follow = swarm(cat({EDIT, QUERY, {{"addh", 8}, {"add_obj", 4}, {"twinprint", 4}, {"sort", 3}, {"new_number", 2}, {"new_string", 2}, {"new_object", 1}, {"delete", 1}, {"dup", 1}}}), r);
-        int rounds = (int)r.range(1, 3);
-        for (int k = 0; k < rounds; k++) {
-            p.steps.push_back(make_step("sort", r));
-            add_steps(p, follow, r, (int)r.range(2, 15));
+        if (r.chance(1, 3)) {
+            // the other utilities that sort internally: patch 'test', patch generation, merge-patch generation
+            common_knobs(p, r, r.chance(1, 2) ? 3 : 6);
+            g_casekeys = p.knobs["profile"] == 6;
+            p.steps.push_back(make_step("parse", r));
+            int rounds = (int)r.range(1, 3);
+            for (int k = 0; k < rounds; k++) {
+                switch (r.below(3)) {
+                    case 0: {  // a test operation touches (and sorts) the object, later operations and edits follow
+                        int n = (int)r.range(1, 3);
+                        int64_t doc = R(r);
+                        for (int i = 0; i < n; i++) { Step s = make_step("pop", r); s.a[0] = doc; s.a[1] = (i == 0 || r.chance(1, 2)) ? 3 : (int64_t)r.below(6); s.a[5] = (int64_t)(r.next() >> 2) | 1; p.steps.push_back(s); }
+                        p.steps.push_back(make_step("patch_apply", r));
+                        break;
+                    }
+                    case 1: { Step d = make_step("dup", r); d.a[1] = 0; d.a[2] = 1; p.steps.push_back(d); add_steps(p, cat({EDIT, {{"addh", 6}, {"delete_key", 3}}}), r, (int)r.range(0, 3), true); p.steps.push_back(make_step("patch_gen", r)); break; }
+                    default: { Step d = make_step("dup", r); d.a[1] = 0; d.a[2] = 1; p.steps.push_back(d); add_steps(p, cat({EDIT, {{"addh", 6}, {"delete_key", 3}}}), r, (int)r.range(0, 3), true); p.steps.push_back(make_step("merge_gen", r)); break; }
+                }
+                add_steps(p, follow, r, (int)r.range(2, 12), true);
+            }
+        } else {
+            common_knobs(p, r, 0);
+            p.steps.push_back(make_step("new_object", r));
+            int members = r.chance(1, 8) ? (int)r.range(10, 40) : (int)r.range(0, 9);
+            for (int i = 0; i < members; i++) {
+                Step s = make_step(r.chance(1, 4) ? "add_obj" : "addh", r);
+                if (s.op == "add_obj") { p.steps.push_back(make_step(pickw(CREATE, r), r)); }
+                s.a[0] = 0;
+                p.steps.push_back(s);
+            }
+            int rounds = (int)r.range(1, 3);
+            for (int k = 0; k < rounds; k++) {
+                p.steps.push_back(make_step("sort", r));
+                add_steps(p, follow, r, (int)r.range(2, 15));
+            }
         }
     }
     return p;
